@@ -202,12 +202,48 @@ func permGovName(url string) string {
 	return p[1] + "." + p[len(p)-1]
 }
 
+// Spellings of an address text: "A" = the usual lower-case bech32 text of account A, "A^" the
+// all-upper-case text of the same bytes (accepted by sdk.AccAddressFromBech32 and by the signing
+// context), "A~" a mixed-case text of the same letters (EqualFold-equal, not valid bech32: no
+// transaction can be signed under it; only the direct guard probe `hasperm` uses it).
+func permBase(sym string) string { return strings.TrimRight(sym, "^~") }
+
+// T is the text a symbolic name stands for.
+func (e *permEnv) T(sym string) string {
+	ad, ok := e.addr[permBase(sym)]
+	if !ok {
+		return sym // not an account at all: passed to the guard as it is
+	}
+	switch {
+	case strings.HasSuffix(sym, "^"):
+		return strings.ToUpper(ad.String())
+	case strings.HasSuffix(sym, "~"):
+		t := ad.String()
+		return strings.ToUpper(t[:2]) + t[2:]
+	}
+	return ad.String()
+}
+
+// permSpell spells a name in upper case now and then.
+func permSpell(rng *RNG, n string, pct int) string {
+	if n != "-" && rng.Chance(pct) {
+		return n + "^"
+	}
+	return n
+}
+
 func (e *permEnv) sym(bech string) string {
 	if bech == "" {
 		return "-"
 	}
 	if n, ok := e.name[bech]; ok {
 		return n
+	}
+	if n, ok := e.name[strings.ToLower(bech)]; ok {
+		if bech == strings.ToUpper(bech) {
+			return n + "^"
+		}
+		return n + "~"
 	}
 	return "?"
 }
@@ -244,7 +280,7 @@ func (e *permEnv) parseGrants(s string) []exchange.AccessGrant {
 	var res []exchange.AccessGrant
 	for _, ent := range strings.Split(s, "|") {
 		p := strings.SplitN(ent, ":", 2)
-		ag := exchange.AccessGrant{Address: e.addr[p[0]].String()}
+		ag := exchange.AccessGrant{Address: e.T(p[0])}
 		for _, pn := range strings.Split(p[1], "+") {
 			ag.Permissions = append(ag.Permissions, exchange.Permission(exchange.Permission_value["PERMISSION_"+strings.ToUpper(pn)]))
 		}
@@ -258,7 +294,7 @@ func (e *permEnv) signerOK(msg sdk.Msg, want string) bool {
 	if err != nil || len(signers) != 1 {
 		return false
 	}
-	return sdk.AccAddress(signers[0]).Equals(e.addr[want])
+	return sdk.AccAddress(signers[0]).Equals(e.addr[permBase(want)])
 }
 
 func (e *permEnv) dump() string {
@@ -308,11 +344,11 @@ func (e *permEnv) exec(op string) string {
 		admin := kvArg(ws, "admin")
 		var m uint32
 		fmt.Sscan(kvArg(ws, "m"), &m)
-		msg := &exchange.MsgMarketManagePermissionsRequest{Admin: e.addr[admin].String(), MarketId: m,
+		msg := &exchange.MsgMarketManagePermissionsRequest{Admin: e.T(admin), MarketId: m,
 			ToRevoke: e.parseGrants(kvArg(ws, "revoke")), ToGrant: e.parseGrants(kvArg(ws, "grant"))}
 		if ra := kvArg(ws, "revokeall"); ra != "-" && ra != "" {
 			for _, n := range strings.Split(ra, "|") {
-				msg.RevokeAll = append(msg.RevokeAll, e.addr[n].String())
+				msg.RevokeAll = append(msg.RevokeAll, e.T(n))
 			}
 		}
 		return run(msg, admin, func(ctx sdk.Context) error { _, err := e.srv.MarketManagePermissions(ctx, msg); return err })
@@ -320,7 +356,7 @@ func (e *permEnv) exec(op string) string {
 		var m uint32
 		fmt.Sscan(ws[2], &m)
 		caller := ws[3]
-		admin := e.addr[caller].String()
+		admin := e.T(caller)
 		a := e.addr["A"].String()
 		var msg sdk.Msg
 		var f func(ctx sdk.Context) error
@@ -397,12 +433,20 @@ func (e *permEnv) exec(op string) string {
 			return r
 		}
 		return "pass #" + r
+	case "hasperm": // the guard itself, called directly with the text as it is
+		if len(ws) != 4 {
+			return "bad-op"
+		}
+		var m uint32
+		fmt.Sscan(ws[1], &m)
+		perm := exchange.Permission(exchange.Permission_value["PERMISSION_"+strings.ToUpper(ws[3])])
+		return Guard(func() string { return fmt.Sprint(k.HasPermission(e.ctx, m, e.T(ws[2]), perm)) })
 	case "mkorder": // harness-only: creates a real order, then tells the model via an `order` line (see drive)
 		return "bad-op"
 	case "cancel":
 		var id uint64
 		fmt.Sscan(ws[1], &id)
-		msg := &exchange.MsgCancelOrderRequest{Signer: e.addr[ws[2]].String(), OrderId: id}
+		msg := &exchange.MsgCancelOrderRequest{Signer: e.T(ws[2]), OrderId: id}
 		return run(msg, ws[2], func(ctx sdk.Context) error { _, err := e.srv.CancelOrder(ctx, msg); return err })
 	case "pay":
 		p := exchange.Payment{Source: e.addr[ws[1]].String(), SourceAmount: sdk.NewCoins(sdk.NewInt64Coin("usdx", 5)), ExternalId: ws[2]}
@@ -454,7 +498,7 @@ func (e *permEnv) createOrder(m uint32, owner string) (uint64, error) {
 	var id uint64
 	err, pan := Try(e.ctx, func(ctx sdk.Context) error {
 		resp, err := e.srv.CreateAsk(ctx, &exchange.MsgCreateAskRequest{AskOrder: exchange.AskOrder{
-			MarketId: m, Seller: e.addr[owner].String(), Assets: sdk.NewInt64Coin("apple", 3), Price: sdk.NewInt64Coin("usdx", 7)}})
+			MarketId: m, Seller: e.T(owner), Assets: sdk.NewInt64Coin("apple", 3), Price: sdk.NewInt64Coin("usdx", 7)}})
 		if err == nil {
 			id = resp.OrderId
 		}
@@ -567,7 +611,7 @@ func (e *permEnv) permFill(v reflect.Value, p permGovPayload, depth int) {
 				}
 				switch {
 				case name == "Authority":
-					f.SetString(e.addr[p.caller].String())
+					f.SetString(e.T(p.caller))
 				case permAddrLike(name):
 					f.SetString(e.addr[p.subj].String())
 				case strings.HasSuffix(name, "Denom") || name == "Base" || name == "Display":
@@ -613,7 +657,7 @@ func (e *permEnv) permGovMsg(url, name string, p permGovPayload) (sdk.Msg, strin
 		return nil, "bad-op"
 	}
 	mv := reflect.ValueOf(msg).Elem()
-	mv.FieldByName("Authority").SetString(e.addr[p.caller].String())
+	mv.FieldByName("Authority").SetString(e.T(p.caller))
 	if p.bare {
 		return msg, ""
 	}
@@ -705,7 +749,7 @@ func (e *permEnv) permKeepers() map[string]any {
 }
 
 func permParseGovPayload(ws []string) permGovPayload {
-	p := permGovPayload{caller: ws[2], bare: len(ws) == 3, m: 1, subj: ws[2], denom: "nhash", nm: "root"}
+	p := permGovPayload{caller: ws[2], bare: len(ws) == 3, m: 1, subj: permBase(ws[2]), denom: "nhash", nm: "root"}
 	if p.bare {
 		return p
 	}
@@ -733,7 +777,7 @@ func permParseGovPayload(ws []string) permGovPayload {
 func (e *permEnv) execGov(ws []string) string {
 	name := ws[1]
 	p := permParseGovPayload(ws)
-	if _, ok := e.addr[p.caller]; !ok {
+	if _, ok := e.addr[permBase(p.caller)]; !ok || strings.HasSuffix(p.caller, "~") {
 		return "bad-op"
 	}
 	if _, ok := e.addr[p.subj]; !ok {
@@ -834,13 +878,17 @@ func drivePerm(t *testing.T, rng *RNG, n int, out *Out) {
 			if rng.Chance(30) {
 				nm = "kid"
 			}
-			r := emit(fmt.Sprintf("gov %s %s m=%d subj=%s d=%s nm=%s", gn, caller, m, subj, d, nm))
+			spelled := permSpell(rng, caller, 20)
+			if spelled != caller {
+				out.Count("spelling:gov-caller-upper")
+			}
+			r := emit(fmt.Sprintf("gov %s %s m=%d subj=%s d=%s nm=%s", gn, spelled, m, subj, d, nm))
 			standing := "none"
 			if caller == "GOV" {
 				standing = "authority"
 			} else if m <= 2 {
 				for _, ag := range e.app.ExchangeKeeper.GetAccessGrants(e.ctx, m) {
-					if e.sym(ag.Address) == caller {
+					if e.sym(ag.Address) == permBase(caller) {
 						standing = fmt.Sprintf("perms%d", len(ag.Permissions))
 					}
 				}
@@ -907,6 +955,23 @@ func drivePerm(t *testing.T, rng *RNG, n int, out *Out) {
 				if len(ra)+len(rv)+len(gr) == 0 {
 					gr = []string{Pick(rng, permNames) + ":" + Pick(rng, permPermNames)}
 				}
+				// spellings: the admin and every named account in upper case now and then
+				admin = permSpell(rng, admin, 25)
+				for _, l := range [][]string{ra, rv, gr} {
+					for i := range l {
+						if rng.Chance(20) {
+							if j := strings.Index(l[i], ":"); j >= 0 {
+								l[i] = l[i][:j] + "^" + l[i][j:]
+							} else {
+								l[i] += "^"
+							}
+							out.Count("spelling:grantee-upper")
+						}
+					}
+				}
+				if strings.HasSuffix(admin, "^") {
+					out.Count("spelling:admin-upper")
+				}
 				emit(fmt.Sprintf("perms admin=%s m=%d revokeall=%s revoke=%s grant=%s", admin, m, JoinOr(ra, "|"), JoinOr(rv, "|"), JoinOr(gr, "|")))
 				emit("dump")
 			case k < 70:
@@ -921,14 +986,29 @@ func drivePerm(t *testing.T, rng *RNG, n int, out *Out) {
 						ep = Pick(rng, want)
 					}
 				}
-				emit(fmt.Sprintf("call %s %d %s", ep, m, caller))
+				caller = permSpell(rng, caller, 30)
+				r := emit(fmt.Sprintf("call %s %d %s", ep, m, caller))
+				if strings.HasSuffix(caller, "^") {
+					out.Count("spelling:caller-upper:" + strings.Fields(r)[0])
+				}
+				// the guard itself on the same market under every spelling, valid or not
+				if rng.Chance(25) {
+					who := Pick(rng, callers) + Pick(rng, []string{"", "^", "~", "~"})
+					if rng.Chance(10) {
+						who = Pick(rng, []string{"zz", "GOVX", "pb1qqqq"})
+					}
+					hr := emit(fmt.Sprintf("hasperm %d %s %s", m, who, Pick(rng, permPermNames)))
+					out.Count("spelling:hasperm:" + hr)
+				}
 			case k < 78:
 				m := uint32(1 + rng.Intn(2))
-				owner := Pick(rng, permNames)
+				owner := permSpell(rng, Pick(rng, permNames), 25)
 				id, err := e.createOrder(m, owner)
 				if err == nil {
 					out.Count("op:order")
 					out.Emit(fmt.Sprintf("order %d %d %s", id, m, owner), "ok")
+				} else if strings.HasSuffix(owner, "^") {
+					out.Count("spelling:order-owner-upper-refused")
 				}
 			case k < 86:
 				var id uint64 = 900009
@@ -949,11 +1029,22 @@ func drivePerm(t *testing.T, rng *RNG, n int, out *Out) {
 					id = Pick(rng, e.orders)
 				} else if rng.Chance(80) {
 					m := uint32(1 + rng.Intn(2))
-					owner := Pick(rng, permNames)
+					owner := permSpell(rng, Pick(rng, permNames), 25)
 					if nid, err := e.createOrder(m, owner); err == nil {
 						out.Count("op:order")
 						out.Emit(fmt.Sprintf("order %d %d %s", nid, m, owner), "ok")
 						id = nid
+					}
+				}
+				// the same account under the other spelling now and then
+				if signer != "GOV" || rng.Chance(50) {
+					if rng.Chance(25) {
+						if strings.HasSuffix(signer, "^") {
+							signer = permBase(signer)
+						} else {
+							signer += "^"
+						}
+						out.Count("spelling:cancel-signer-flipped")
 					}
 				}
 				emit(fmt.Sprintf("cancel %d %s", id, signer))
